@@ -179,6 +179,9 @@ fn run(ctx: &Ctx) {
     ctx.run_proptest_with("dynamic-hostile-values", ctx.tier.pick(1_500_000, 12_000_000), s1, check);
     let s2 = || Box::new((any_val(), opts()).prop_map(|(v, opts)| Case { value: Payload::Family(v), opts }));
     ctx.run_proptest_with("family-values-hostile-roots", ctx.tier.pick(600_000, 5_000_000), s2, check);
+    ctx.run_indexed("every-code-point-in-a-root-name", 0x110000 * 2, |i| Some(NameCase { cp: (i / 2) as u32, first: i % 2 == 0 }), check_name);
+    let s3 = || Box::new((any_val(), any::<u16>(), 1u8..40).prop_map(|(value, budget, chunk)| SinkCase { value, budget, chunk }));
+    ctx.run_proptest_with("io-sink-that-fails-after-n-bytes", ctx.tier.pick(200_000, 2_000_000), s3, check_sink);
     // every hostile name in every position, exhaustively (names are the small static pools)
     let n = (STRUCT_NAMES.len() * FIELD_KEYS.len() * VARIANTS.len()) as u64;
     ctx.run_indexed(
@@ -203,7 +206,110 @@ fn run(ctx: &Ctx) {
     );
 }
 
+/// every code point as first and as later character of a root name: accepted exactly when the
+/// independent XML 1.1 `Name` predicate accepts it
+#[derive(Clone, Debug, Serialize, Deserialize, PartialEq)]
+pub struct NameCase {
+    pub cp: u32,
+    pub first: bool,
+}
+
+pub fn check_name(c: &NameCase) -> Verdict {
+    let ch = match char::from_u32(c.cp) {
+        Some(ch) => ch,
+        None => return Verdict::excluded("surrogate"),
+    };
+    let name = if c.first { format!("{}b", ch) } else { format!("a{}b", ch) };
+    let legal = crate::xmlname::is_name(&name);
+    let got = quick_xml::se::to_string_with_root(&name, &7u8);
+    match (&got, legal) {
+        (Ok(out), true) if *out == format!("<{}>7</{}>", name, name) => Verdict::pass(true).class("legal-name-accepted"),
+        (Err(_), false) => Verdict::pass(true).class("illegal-name-rejected"),
+        (Ok(out), false) => Verdict::fail(format!("root name {:?} (U+{:04X} {}) is not a legal XML name but reached the output: {:?}", name, c.cp, if c.first { "first" } else { "later" }, out)),
+        // rejecting a legal name is not a violation of this property (nothing illegal reaches the output)
+        (Err(_), true) => Verdict::pass(false).class("legal-name-rejected"),
+        (Ok(out), true) => Verdict::fail(format!("root name {:?} gives unexpected output {:?}", name, out)),
+    }
+}
+
+/// serialization into an io::Write sink that fails after `budget` bytes: the call must report the
+/// error, or everything must have reached the sink
+#[derive(Clone, Debug, Serialize, Deserialize, PartialEq)]
+pub struct SinkCase {
+    pub value: crate::types::Val,
+    /// the sink accepts this share (0..=65535 scaled to 0..=len+1) of the full output, then fails
+    pub budget: u16,
+    pub chunk: u8,
+}
+
+struct FailingSink {
+    out: Vec<u8>,
+    left: usize,
+    chunk: usize,
+}
+impl std::io::Write for FailingSink {
+    fn write(&mut self, buf: &[u8]) -> std::io::Result<usize> {
+        if self.left == 0 {
+            return Err(std::io::Error::new(std::io::ErrorKind::Other, "qxv: sink is full"));
+        }
+        let n = buf.len().min(self.left).min(self.chunk.max(1));
+        self.out.extend_from_slice(&buf[..n]);
+        self.left -= n;
+        Ok(n)
+    }
+    fn flush(&mut self) -> std::io::Result<()> {
+        Ok(())
+    }
+}
+
+fn to_io<T: serde::Serialize>(v: &T, sink: &mut FailingSink) -> Result<(), String> {
+    quick_xml::se::to_utf8_io_writer(sink, v).map(|_| ()).map_err(|e| e.to_string())
+}
+
+pub fn check_sink(c: &SinkCase) -> Verdict {
+    let full = match c.value.serialize_with(&SerOpts { level: 1, indent: None, expand_empty: false, root: None }) {
+        Ok(x) => x,
+        Err(_) => return Verdict::excluded("value-does-not-serialize"),
+    };
+    let budget = crate::engine::scale(c.budget, full.len() + 2);
+    let mut sink = FailingSink { out: vec![], left: budget, chunk: c.chunk as usize };
+    let res = c.value.serialize_io(&mut |v: &dyn erased::Ser| v.go(&mut sink));
+    match res {
+        Ok(()) => {
+            if sink.out != full.as_bytes() {
+                return Verdict::fail(format!("to_utf8_io_writer returned Ok but the sink (room for {} of {} bytes) holds {:?}, the full output is {:?}", budget, full.len(), String::from_utf8_lossy(&sink.out), full));
+            }
+            Verdict::pass(budget >= full.len()).class("io-sink-complete")
+        }
+        Err(_) => {
+            if budget >= full.len() + 1 {
+                return Verdict::fail(format!("to_utf8_io_writer failed although the sink had room for the whole output ({} bytes)", full.len()));
+            }
+            Verdict::pass(true).class("io-sink-error-reported")
+        }
+    }
+}
+
+pub mod erased {
+    pub trait Ser {
+        fn go(&self, sink: &mut super::FailingSink) -> Result<(), String>;
+    }
+    impl<T: serde::Serialize> Ser for T {
+        fn go(&self, sink: &mut super::FailingSink) -> Result<(), String> {
+            super::to_io(self, sink)
+        }
+    }
+}
+
 fn replay(_stage: &str, case: &Value) -> Result<Verdict, String> {
+    if case.get("cp").is_some() {
+        let c: NameCase = serde_json::from_value(case.clone()).map_err(|e| e.to_string())?;
+        return Ok(check_name(&c));
+    }
+    if case.get("budget").is_some() {
+        let c: SinkCase = serde_json::from_value(case.clone()).map_err(|e| e.to_string())?;
+        return Ok(check_sink(&c));
+    }
     let c: Case = serde_json::from_value(case.clone()).map_err(|e| e.to_string())?;
     Ok(check(&c))
 }
